@@ -668,7 +668,10 @@ class PortCollection (object):
     if self._chain:
       p = self._chain[index]
       if p.port_no not in self._masks:
-        return p
+        # A port of ours with the same number replaces the chained one (which
+        # may have had another name or address)
+        if not any(q.port_no == p.port_no for q in self._ports):
+          return p
 
     raise IndexError("No key %s" % (index,))
 
